@@ -95,6 +95,7 @@ def join_upto(ls, k):
 
 
 class ReplaceFile(Contract):
+    locals_order = ['lines', 'local', 'encoding', 'local_new', 'new_file', 'l']
     target = MOD + ":replace_file"
     modular = False
     requires = ()
